@@ -78,32 +78,32 @@ Qed.
 Print Assumptions C09_pure_expression_is_balanced.
 
 (* statements over globals: blocks, if, if/else, while — any nesting, any number of iterations *)
-Theorem C09_statement_is_balanced : forall t s s' v c m n G' x,
-  wstmt t = true -> wfcs s -> idle v s c m ->
+Theorem C09_statement_is_balanced : forall Bf t s s' v c m n G' x,
+  wstmt t = true -> wfcs s -> idle v s c m -> bcode Bf (load_code v s) ->
   ByteCode t s = CompOk s' ->
-  ssem n (wof v) t = Some (G', Ok x) ->
+  ssem Bf n (wof v) t = Some (G', Ok x) ->
   exists k, forall fuel, (k < fuel)%nat ->
     exists v' m' c', Run fuel (load_code v s') true = (v', RValue x) /\
       assoc_get (v_mems v') (c_mid c) = Some m' /\ m_sp m' = m_sp m /\ msame (m_sp m) m m' /\
       assoc_get (v_ctxs v') 0 = Some c' /\ c_ip c' = ncs s' /\ c_children c' = c_children c.
 Proof.
-  intros t s s' v c m n G' x Hw Hwf Hid HB HM.
-  destruct (bytecode_run_stmt t s s' v c m n G' (Ok x) Hw Hwf Hid HB HM) as [_ [k R]].
+  intros Bf t s s' v c m n G' x Hw Hwf Hid Hbc HB HM.
+  destruct (bytecode_run_stmt Bf t s s' v c m n G' (Ok x) Hw Hwf Hid Hbc HB HM) as [_ [_ [k R]]].
   exists k. intros fuel Hf. destruct (R fuel) as [_ R2]. specialize (R2 Hf).
-  destruct R2 as [v' [m' (E & Hm & Hsp & Hms & _ & [c' [Hc [Hip [_ Hch]]]])]].
+  destruct R2 as [v' [m' (E & Hm & Hsp & Hms & _ & _ & [c' [Hc [Hip [_ Hch]]]])]].
   exists v', m', c'. split; [exact E|]. split; [exact Hm|]. split; [exact Hsp|]. split; [exact Hms|].
   split; [exact Hc|]. split; [exact Hip|exact Hch].
 Qed.
 Print Assumptions C09_statement_is_balanced.
 
-Theorem C09_statement_is_balanced_file_mode : forall t s s' v c m n G' x,
-  wstmt t = true -> wfcs s -> idle v s c m ->
+Theorem C09_statement_is_balanced_file_mode : forall Bf t s s' v c m n G' x,
+  wstmt t = true -> wfcs s -> idle v s c m -> bcode Bf (load_code v s) ->
   ByteCodeNoStck t s = CompOk s' ->
-  ssem n (wof v) t = Some (G', Ok x) ->
+  ssem Bf n (wof v) t = Some (G', Ok x) ->
   exists k, forall fuel, (k < fuel)%nat -> ran_to_end v c m s' G' (Run fuel (load_code v s') false).
 Proof.
-  intros t s s' v c m n G' x Hw Hwf Hid HB HM.
-  destruct (bytecode_nostck_run_stmt t s s' v c m n G' (Ok x) Hw Hwf Hid HB HM) as [_ [k R]].
+  intros Bf t s s' v c m n G' x Hw Hwf Hid Hbc HB HM.
+  destruct (bytecode_nostck_run_stmt Bf t s s' v c m n G' (Ok x) Hw Hwf Hid Hbc HB HM) as [_ [k R]].
   exists k. exact R.
 Qed.
 Print Assumptions C09_statement_is_balanced_file_mode.
